@@ -193,6 +193,9 @@ func (rs *rawSocketPeer) Close() {
 	// Tell sendHandler to exit, and discard any queued messages. Do not close
 	// wr channel in case there are incoming messages during close.
 	rs.cancelSender()
+	// The sender may be blocked writing to a client that stopped reading.
+	// Bound that write, so that closing the peer always returns.
+	_ = rs.conn.SetWriteDeadline(time.Now().Add(ctrlTimeout))
 	<-rs.writerDone
 	close(rs.wr)
 	for range rs.wr {
